@@ -107,7 +107,7 @@ var requiredProbes = map[string][]string{
 	"C15": {"c15_get_ok", "c15_set_ok"},
 	"C16": {"c16_resolution_checked", "c16_moved_to_fallback", "c16_moved_to_configured", "c16_move_gtid_checked", "c16_final_source_checked", "c16_active_list_checked", "c16_master_changed_while_cascade_refuses_logins"},
 	"C17": {"c17_lag_offline_within_cap", "c17_broken_replica_set_offline", "c17_online_with_resetup_status_checked", "c17_master_set_online"},
-	"C18": {"c18_master_set_read_only", "c18_master_set_writable"},
+	"C18": {"c18_master_set_read_only", "c18_master_set_writable", "c18_health_record_of_unmeasurable_host_checked"},
 	"C19": {"c19_sync_pass_checked", "c19_host_deregistered", "c19_relaxed_settings_written", "c19_settings_restored", "c19_freeze_checked", "c19_promotion_checked", "c19_converged_or_lost_host_checked"},
 	"C20": {"c20_steady_run_measured"},
 }
